@@ -5,6 +5,7 @@ package chaingen
 import (
 	"fmt"
 	"os"
+	"strings"
 
 	"verifharness/hx"
 
@@ -53,6 +54,8 @@ type SpecKnobs struct {
 	Epochs         int  // planned chain length in epochs: fork epochs are drawn so that they fall inside
 	PlainMinimal   bool // minimal preset untouched except fork epochs
 	AllForksInside bool // force all four fork epochs < Epochs-1
+	FastEth1       bool // EPOCHS_PER_ETH1_VOTING_PERIOD 1
+	HugeRewards    bool // BASE_REWARD_FACTOR 2^14..2^16: a missed epoch costs a noticeable share of an increment
 	StrongPenalty  bool // large base reward / small inactivity quotients so balances move fast
 	EjectionNear   bool // EJECTION_BALANCE one or two increments below MAX_EFFECTIVE_BALANCE
 	SmallChurn     bool
@@ -187,6 +190,12 @@ func TinySpec(r *hx.Rng, k SpecKnobs) *common.Spec {
 		sp.INACTIVITY_SCORE_BIAS = view.Uint64View(pick(r, 1, 4))
 		sp.INACTIVITY_SCORE_RECOVERY_RATE = view.Uint64View(pick(r, 1, 16))
 	}
+	if k.FastEth1 {
+		sp.EPOCHS_PER_ETH1_VOTING_PERIOD = 1
+	}
+	if k.HugeRewards {
+		sp.BASE_REWARD_FACTOR = view.Uint64View(pick(r, 16384, 32768, 65536))
+	}
 	if r.Chance(40) {
 		sp.MIN_SLASHING_PENALTY_QUOTIENT = view.Uint64View(pick(r, 8, 32, 64))
 		sp.MIN_SLASHING_PENALTY_QUOTIENT_ALTAIR = view.Uint64View(pick(r, 8, 32, 64))
@@ -244,7 +253,28 @@ func WriteConfigYAML(sp *common.Spec, path string) error {
 	if err != nil {
 		return err
 	}
-	return os.WriteFile(path, b, 0o644)
+	// ztyp's Uint64View/Uint256View marshal as quoted decimal strings: write them bare
+	lines := strings.Split(string(b), "\n")
+	for i, l := range lines {
+		k := strings.Index(l, ": ")
+		if k < 0 {
+			continue
+		}
+		v := l[k+2:]
+		if len(v) >= 3 && v[0] == '"' && v[len(v)-1] == '"' {
+			inner := v[1 : len(v)-1]
+			num := true
+			for _, ch := range inner {
+				if ch < '0' || ch > '9' {
+					num = false
+				}
+			}
+			if num {
+				lines[i] = l[:k+2] + inner
+			}
+		}
+	}
+	return os.WriteFile(path, []byte(strings.Join(lines, "\n")), 0o644)
 }
 
 // ReadConfigYAML reads it back (selfcheck).
